@@ -640,6 +640,109 @@ def enum_list(ctx):
     return out
 
 
+# --------------------------------------------------------- min / max / null
+INT_DEFAULTS = {}
+for _p, (_w, _s) in {"int8": (8, 1), "int16": (16, 1), "int32": (32, 1), "int64": (64, 1),
+                     "uint8": (8, 0), "uint16": (16, 0), "uint32": (32, 0), "uint64": (64, 0)}.items():
+    if _s:
+        INT_DEFAULTS[_p] = (-(1 << (_w - 1)) + 1, (1 << (_w - 1)) - 1, -(1 << (_w - 1)))
+    else:
+        INT_DEFAULTS[_p] = (0, (1 << _w) - 2, (1 << _w) - 1)
+INT_DEFAULTS["char"] = (0x20, 0x7e, 0)
+
+
+def fp_const(v):
+    """('num', float) / ('fn', name) for a floating constant returned by a generated function"""
+    if isinstance(v, Lin) and len(v.terms) == 1 and v.k == 0 and v.terms[0][1] == 1:
+        a = v.terms[0][0]
+        if a[0] == "float":
+            return ("num", float(a[1]))
+        if a[0] == "call":
+            return ("fn", str(a[1]).split("::")[-1])
+        if a[0] == "cast":
+            return fp_const(a[2])
+    if isinstance(v, Lin) and v.is_const():
+        return ("num", float(v.k))
+    if isinstance(v, Lin) and len(v.terms) == 1 and v.terms[0][1] == -1 and v.k == 0:
+        inner = fp_const(Lin.atom(v.terms[0][0]))
+        if inner and inner[0] == "num":
+            return ("num", -inner[1])
+        if inner and inner[0] == "fn":
+            return ("fn", "-" + inner[1])
+    return None
+
+
+def check_minmaxnull(ctx, rule):
+    import struct
+    chk, lib = ctx.chk, ctx.lib
+    todo = []
+
+    def rec(enc, cls, path):
+        if isinstance(enc, M.Type):
+            if not enc.is_constant and enc.length == 1:
+                todo.append((enc, cls, path))
+        elif isinstance(enc, M.Composite):
+            for el in enc.elements:
+                if isinstance(el, (M.Type, M.Composite)):
+                    f = ctx.method0(cls, el.name)
+                    if f is None:
+                        continue
+                    rec(el, rint.clean(f["ret"]), path + [el.name])
+    for enc in ctx.m.type_order:
+        cls = ctx.names.get("ty__" + enc.name)
+        if cls:
+            rec(enc, cls, ["types", enc.name])
+    for t, cls, path in todo:
+        key = "::".join(path)
+        prim = t.primitive
+        for which, text in (("min", t.min), ("max", t.max), ("null", t.null if t.presence == "optional" else None)):
+            if which == "null" and t.presence != "optional":
+                continue
+            f = ctx.method0(cls, which + "_value")
+            if f is None:
+                chk.violation(rule, "limit-missing:%s:%s" % (key, which), ctx.xml(), "%s has no %s_value()" % (key, which))
+                continue
+            got = lib.summary(f).live[0].ret
+            errs = None
+            if prim in ("float", "double"):
+                g = fp_const(got)
+                if text is None:
+                    want = {"min": ("fn", "min"), "max": ("fn", "max"), "null": ("fn", "quiet_NaN")}[which]
+                elif text == "NaN":
+                    want = ("fn", "quiet_NaN")
+                elif text in ("INF", "+INF"):
+                    want = ("fn", "infinity")
+                elif text == "-INF":
+                    want = ("fn", "-infinity")
+                else:
+                    want = ("num", float(text))
+                if g is None:
+                    errs = "returns %s" % show(got)
+                elif want[0] == "num":
+                    a, b = g[1] if g[0] == "num" else None, want[1]
+                    if a is None:
+                        errs = "returns %s, schema says %s" % (g, text)
+                    else:
+                        if prim == "float":
+                            a = struct.unpack("f", struct.pack("f", a))[0]
+                            b = struct.unpack("f", struct.pack("f", b))[0]
+                        if a != b:
+                            errs = "returns %r, schema says %s" % (a, text)
+                elif g != want:
+                    errs = "returns %s, expected std::numeric_limits<%s>::%s()" % (g, prim, want[1])
+            else:
+                if text is None:
+                    want = INT_DEFAULTS[prim][{"min": 0, "max": 1, "null": 2}[which]]
+                else:
+                    want = int(text)
+                if not (isinstance(got, Lin) and got.is_const() and got.k == want):
+                    errs = "returns %s, %s is %d" % (show(got), "schema says" if text is not None else "the SBE default of %s" % prim, want)
+            if errs:
+                chk.violation(rule, "limit:%s:%s" % (key, which), where(f), "schema %s, %s %s_value(): %s" % (ctx.xml(), key, which, errs))
+            else:
+                chk.ok(rule, "limit:%s:%s" % (key, which), {"entity": key, "primitive": prim, "explicit": text})
+
+
 # --------------------------------------------------------------------- driver
 def check(chk, which, tier, only=None):
     chk.tier_const_only = False
@@ -674,6 +777,8 @@ def check(chk, which, tier, only=None):
         if "traits" in which:
             import e4traits
             e4traits.check_traits(ctx, "E4.traits")
+        if "minmaxnull" in which:
+            check_minmaxnull(ctx, "E4.limits")
         if "size_bytes" in which:
             import e4traits
             e4traits.check_size_bytes_trait(ctx, "E4.size_bytes")
